@@ -1,0 +1,92 @@
+//! Verification hooks: add-only, thin wrappers that let an external harness call
+//! a few crate-private pure functions directly.  The whole module exists only
+//! under `--cfg hyperledger_aries_askar_verif`; the default build never sees it.
+#![cfg(all(hyperledger_aries_askar_verif, feature = "sqlite"))]
+
+use crate::{
+    backend::{
+        db_utils::{self, QueryParams, QueryPrepare},
+        sqlite::SqliteBackend,
+        OrderBy,
+    },
+    entry::TagFilter,
+    error::Error,
+    wql::{
+        sql::TagSqlEncoder,
+        tags::{tag_query, TagQueryEncoder},
+    },
+};
+
+/// `db_utils::PAGE_SIZE`
+pub const PAGE_SIZE: usize = db_utils::PAGE_SIZE;
+
+/// What `db_utils::encode_tag_filter` does, with the two encryption functions injected:
+/// `tag_query` + `TagSqlEncoder` + `encode_query` + `replace_arg_placeholders::<SqliteBackend>`.
+/// Returns `(sql after replace_arg_placeholders, sql before, arguments)`.
+#[allow(clippy::type_complexity)]
+pub fn encode_filter(
+    filter: TagFilter,
+    start_offset: usize,
+    enc_name: impl Fn(&str) -> Vec<u8>,
+    enc_value: impl Fn(&str) -> Vec<u8>,
+) -> Result<Option<(String, String, Vec<Vec<u8>>)>, Error> {
+    let tag_query = tag_query(filter.query)?;
+    let mut enc = TagSqlEncoder::new(
+        |name: &str| Ok(enc_name(name)),
+        |value: &str| Ok(enc_value(value)),
+    );
+    if let Some(raw) = enc.encode_query(&tag_query)? {
+        let sql =
+            db_utils::replace_arg_placeholders::<SqliteBackend>(&raw, (start_offset as i64) + 1);
+        Ok(Some((sql, raw, enc.arguments)))
+    } else {
+        Ok(None)
+    }
+}
+
+/// `db_utils::replace_arg_placeholders::<SqliteBackend>`
+pub fn replace_placeholders(text: &str, start: i64) -> String {
+    db_utils::replace_arg_placeholders::<SqliteBackend>(text, start)
+}
+
+/// `db_utils::decode_tags`; each tag as `(name, value, plaintext)`
+#[allow(clippy::type_complexity)]
+pub fn decode_tags(bytes: Vec<u8>) -> Option<Vec<(Vec<u8>, Vec<u8>, bool)>> {
+    db_utils::decode_tags(bytes).ok().map(|tags| {
+        tags.into_iter()
+            .map(|t| (t.name, t.value, t.plaintext))
+            .collect()
+    })
+}
+
+/// The text of one of the SQLite backend's fixed statements (`"count"`, `"scan"`, …)
+pub fn statement(name: &str) -> Option<&'static str> {
+    crate::backend::sqlite::verif_statement(name)
+}
+
+/// `db_utils::extend_query::<SqliteBackend>` on `base`, with `nparams` parameters already bound.
+/// Returns the final SQL text and the final number of bound parameters.
+pub fn extend_query(
+    base: &str,
+    nparams: usize,
+    tag_filter: Option<(String, Vec<Vec<u8>>)>,
+    offset: Option<i64>,
+    limit: Option<i64>,
+    order_by_id: bool,
+    descending: bool,
+) -> Result<(String, usize), Error> {
+    let mut params = QueryParams::<<SqliteBackend as QueryPrepare>::DB>::new();
+    for _ in 0..nparams {
+        params.push(0i64);
+    }
+    let query = db_utils::extend_query::<SqliteBackend>(
+        base,
+        &mut params,
+        tag_filter,
+        offset,
+        limit,
+        if order_by_id { Some(OrderBy::Id) } else { None },
+        descending,
+    )?;
+    Ok((query, params.len()))
+}
